@@ -35,10 +35,12 @@ def cell_xml(cell, column_attribute=None):
         attributes = ' table:number-columns-repeated="%s"' % column_attribute
     elif cell["rep"] != 1:
         attributes = ' table:number-columns-repeated="%d"' % cell["rep"]
+    # a comment on the cell: an annotation element in front of the cell's own paragraphs (its paragraph is not cell text)
+    note = '<office:annotation><text:p>a note<text:s/>on the cell</text:p></office:annotation>' if cell.get("note") else ""
     if not cell["paras"]:
-        return "<table:table-cell%s/>" % attributes
+        return ("<table:table-cell%s>%s</table:table-cell>" % (attributes, note)) if note else "<table:table-cell%s/>" % attributes
     paragraphs = "".join("<text:p>%s</text:p>" % "".join(piece_xml(p) for p in paragraph) for paragraph in cell["paras"])
-    return '<table:table-cell office:value-type="string"%s>%s</table:table-cell>' % (attributes, paragraphs)
+    return '<table:table-cell office:value-type="string"%s>%s%s</table:table-cell>' % (attributes, note, paragraphs)
 
 
 def row_xml(row, row_attribute=None, column_attribute=None):
@@ -92,10 +94,13 @@ def plain_sheet(table):
     return rows
 
 
-def compact_sheet(table):
-    """The same, the way spreadsheet applications store it: adjacent equal cells of a row are one element with a repeat count."""
+def compact_sheet(table, notes=False):
+    """The same, the way spreadsheet applications store it: adjacent equal cells of a row are one element with a repeat count
+    (and, on request, every cell with a comment attached)."""
     rows = plain_sheet(table)
     for row in rows:
+        for cell in row["cells"]:
+            cell["note"] = notes
         cells = []
         for cell in row["cells"]:
             if cells and cells[-1]["paras"] == cell["paras"]:
